@@ -15,7 +15,7 @@ RULE = ("all ordered lists of <=3 ballots (thorough <=4) drawn from a pool of 14
 def content_pool():
     A, B = frozenset("A"), frozenset("B")
     rks = [None, (A,), (A, B), (frozenset("AB"),)]
-    scs = [None, {"A": 1}, {"A": 1, "B": F(1, 2)}]
+    scs = [None, {"A": 1}, {"A": 1, "B": F(1, 2)}, {"C": -1}]
     pool = []
     for r in rks:
         for s in scs:
@@ -154,6 +154,12 @@ def check_case(case):
             viol("add", f"p + p weights {Ws}")
         if n >= 5:
             break
+    # same rankings and the same score cards, paired differently: different contents, hence unequal profiles
+    A_, B_ = frozenset("A"), frozenset("B")
+    p1 = PreferenceProfile(ballots=(Ballot(ranking=(A_, B_), scores={"A": 2}, weight=ws[0]), Ballot(ranking=(B_, A_), scores={"B": 2}, weight=ws[0])))
+    p2 = PreferenceProfile(ballots=(Ballot(ranking=(A_, B_), scores={"B": 2}, weight=ws[0]), Ballot(ranking=(B_, A_), scores={"A": 2}, weight=ws[0])))
+    if p1 == p2 or p2 == p1:
+        viol("eq:different-contents-equal", "profiles that pair the same rankings with the same score cards differently compare equal")
     # inequality when weights differ
     if n >= 1:
         bs = list(mk(range(n)))
